@@ -99,6 +99,7 @@ def gen_plan(seed, tier, index=0, avoid=()):
             cr = 0
         cursor = [cr, rng.randrange(w)]
         steps.append({"op": "render", "rows": rows, "cursor": cursor, "fsarray": rng.random() < 0.3,
+                      "fs_width": rng.choice((w, w, max(1, w - 2), w + 1, w + 5)),
                       "reuse_object": rng.random() < 0.3})
         prev = rows
     return {"prop": PROP, "seed": seed, "cfg": cfg, "steps": steps}
@@ -289,7 +290,7 @@ def _execute(p, s, res):
             res["nsteps"] += 1
             rows = st["rows"]
             n = len(rows)
-            arr = gen.build_array(rows, st.get("fsarray"), w, last_arr if st.get("reuse_object") else None)
+            arr = gen.build_array(rows, st.get("fsarray"), st.get("fs_width", w), last_arr if st.get("reuse_object") else None)
             if arr is last_arr:
                 world.probe("same_object_rendered_again")
             last_arr = arr
